@@ -107,6 +107,10 @@ def track_step(t, op):
         return t.add_notes(content(op[1]), num(op[2]))
     if tg == "add_raw":      # a plain Python list of Note objects, in the order given (not sorted as a NoteContainer would be)
         return t.add_notes([to_py(i) for i in op[1]], num(op[2]))
+    if tg == "add_copy":     # NoteContainer(earlier_container): a chord built from another chord of the same track
+        es = [e for b in t.bars for e in b.bar]
+        src = es[op[1]][2] if op[1] < len(es) else None
+        return t.add_notes(NoteContainer(src) if src is not None else None, num(op[2]))
     if tg == "plus":
         c = content(op[1])
         return t + c if c is not None else t.add_notes(None)
